@@ -2,6 +2,7 @@ import FluteModel.Props.C09
 import FluteModel.Lemmas.NoCodeDec
 import FluteModel.Lemmas.NoCodeSession
 import FluteModel.Lemmas.FecSession
+import FluteModel.Lemmas.ObjSessExact
 /-
   C03  No silent corruption: 'complete' always means the sender's exact bytes.
 
@@ -232,5 +233,63 @@ example :
         let d1 := d.pushSymbol C09.codec0 ([esi, esi + 10] : Bytes) esi
         if d1.canDecode C09.codec0 then (d1.decode C09.codec0).1 else d1)
       (Dec.noCode (List.replicate 2 none) 0 none)).sourceBlock = some [0, 10, 1, 11] := by decide
+
+/-! ### Session level
+
+`ObjSess` is the model of how `receiver.rs` drives the per-object receivers (what the driver of engine `orecv` executes for every
+`pkt` / `fdt` / `cleanup` / `drop` line): `objects_completed` / `objects_error` gates, re-download on the packet (SBN 0, ESI 0),
+creation of an ObjectReceiver and attachment to the first FDT of `fdt_current` listing the TOI, attachment of a completed FDT instance to
+all objects, `check_object_state` (remove + Drop), the time-out sweep, Drop of the receiver. -/
+
+/-- **complete ⇒ exact, for the whole session**: `cont t` is what the sender holds for TOI `t` (`GSess.Laws`: partition, symbols,
+    codec contract - instances: `noCodeSession_laws`, `rsSession_laws`, `fecSession_laws`).  For EVERY session history in which every
+    data packet carries genuine symbols / EXT_FTI of the content of ITS TOI and every FDT File entry describes the content of ITS TOI
+    (any interleaving of any number of objects, any order / duplication / loss, objects completed, failed, re-downloaded any number of
+    times, removed by the time-out sweep, stale carousel transfers, several FDT instances), every writer environment, every
+    configuration: each chunk of writer calls the session ever reports (`S'.log`: one per op and object, `all` = all calls made so far
+    on that object's writer) whose writer was told `complete` carries exactly the content of its TOI; the same for the objects
+    still alive.  Every ObjectReceiver the session ever creates - the first one for a TOI and every re-download - is covered.
+
+    A TOI REUSED FOR DIFFERENT CONTENT is outside the hypothesis (`cont` is one content per TOI) and outside what the code guarantees:
+    packets of the old content still in flight are pushed into the ObjectReceiver of the new content (the session keys objects by TOI
+    only, an existing object ignores every later FDT instance, a new one attaches to the NEWEST instance listing the TOI); with a
+    Content-MD5 the object then ends in `error` (`md5_mismatch_errors`), without one it can be completed from a mixture - engine family
+    `toi-reuse` executes this, the byte-exactness oracle is switched off there (`expect <toi> x -`). -/
+theorem session_complete_implies_exact (PP : ObjSess.SParams) (cont : Nat → GSess) (L : ∀ t, (cont t).Laws PP.codec)
+    (cfg : ObjSess.SCfg) (ops : List ObjSess.SOp) (S' : ObjSess.Sess)
+    (hops : ∀ op ∈ ops, ObjSess.SGenOp cont op)
+    (h : ObjSess.Sess.run PP { cfg := cfg } ops = .ok S') :
+    (∀ c ∈ S'.log, ¬ noComplete c.all.reverse → writtenOf c.all.reverse = (cont c.toi).T) ∧
+    (∀ o ∈ S'.objects, ¬ noComplete o.st.out → o.st.written = (cont o.toi).T) := by
+  have h0 : ObjSess.SInv PP cont { cfg := cfg } := ⟨by simp, by simp, by simp⟩
+  have h1 := ObjSess.sinv_run L ops hops h0 h
+  exact ⟨fun c hc => h1.log c hc, fun o ho => (h1.objs o ho).exact⟩
+
+/-- non-vacuity of the session theorem: two interleaved objects (TOI 1 = [1,2,3], TOI 2 = [9]) announced by one FDT instance;
+    the model session reports a chunk containing `complete` for each of them (and, before, the `new` + `open` of TOI 1) -/
+example :
+    let PP : ObjSess.SParams := { codec := C09.codec0, dzRead := fun _ _ _ => ⟨0, .err⟩, dzFuel := 1, md5 := fun _ => "",
+                                  planOf := fun _ _ => ⟨.store, false, true, fun _ => true⟩ }
+    let o : Oti := ⟨.noCode, 2, 2, 0, none⟩
+    let f : ObjSess.Fdt := ⟨1, [(1, ⟨some o, 3, none, .null, none, false⟩), (2, ⟨some o, 1, none, .null, none, false⟩)]⟩
+    let pk (toi sbn esi : Nat) (d : Bytes) : Pkt := ⟨toi, .noCode, false, none, none, [0, sbn, 0, esi], d, 20⟩
+    (match ObjSess.Sess.run PP {} [.fdt f, .pkt (pk 1 0 1 [3]), .pkt (pk 2 0 0 [9]), .pkt (pk 1 0 0 [1, 2])] with
+     | .ok S => S.log.map (fun c => (c.toi, writtenOf c.all.reverse, c.all.any (fun w => match w with | .complete => true | _ => false)))
+     | .error _ => []) = [(1, [1, 2, 3], true), (2, [9], true), (1, [], false)] := by decide
+
+/-- WHAT HAPPENS WITH A TOI REUSED FOR DIFFERENT CONTENT (outside `SGenOp`; finding orecv-2): FDT instance 1 lists TOI 1 with content
+    A = [1,2,3,4], instance 2 lists TOI 1 with content B = [5,6,7,8] (two blocks each, no Content-MD5); a stale packet of A (block 0)
+    arrives after instance 2, then block 1 of B: the session attaches the new ObjectReceiver to the newest instance, decodes the stale
+    block under it and tells the writer `complete` with [1,2,7,8] - neither A nor B.  With a Content-MD5 the object would end in `error`
+    (`md5_mismatch_errors`). -/
+example :
+    let PP : ObjSess.SParams := { codec := C09.codec0, dzRead := fun _ _ _ => ⟨0, .err⟩, dzFuel := 1, md5 := fun _ => "",
+                                  planOf := fun _ _ => ⟨.store, false, true, fun _ => true⟩ }
+    let o : Oti := ⟨.noCode, 2, 1, 0, none⟩
+    let f (id : Nat) : ObjSess.Fdt := ⟨id, [(1, ⟨some o, 4, none, .null, none, false⟩)]⟩
+    let pk (sbn : Nat) (d : Bytes) : Pkt := ⟨1, .noCode, false, none, none, [0, sbn, 0, 0], d, 20⟩
+    (match ObjSess.Sess.run PP {} [.fdt (f 1), .fdt (f 2), .pkt (pk 0 [1, 2]), .pkt (pk 1 [7, 8])] with
+     | .ok S => S.log.map (fun c => (c.toi, writtenOf c.all.reverse, c.all.any (fun w => match w with | .complete => true | _ => false)))
+     | .error _ => []) = [(1, [1, 2, 7, 8], true), (1, [1, 2], false)] := by decide
 
 end Flute.Props.C03
